@@ -1248,11 +1248,24 @@ func contradictoryKeyMissingOn(pod *corev1.Pod, labels map[string]string) string
 	return ""
 }
 
-// topologyKeyAcquired: a key the pod's nodeSelector needs, the node lacks, and some pod assigned to the same node in this
+// topologyKeyAcquired: a key the pod's nodeSelector or required node affinity needs, the node lacks, and some pod assigned to the same node in this
 // pass constrains as a topology key (pod (anti-)affinity or topology spread, required or preferred).
 func (p *provProfile) topologyKeyAcquired(pi *passInfo, target string, pod *corev1.Pod, labels map[string]string) string {
-	keys := make([]string, 0, len(pod.Spec.NodeSelector))
+	need := map[string]bool{}
 	for k := range pod.Spec.NodeSelector {
+		need[k] = true
+	}
+	if a := pod.Spec.Affinity; a != nil && a.NodeAffinity != nil && a.NodeAffinity.RequiredDuringSchedulingIgnoredDuringExecution != nil {
+		for _, nt := range a.NodeAffinity.RequiredDuringSchedulingIgnoredDuringExecution.NodeSelectorTerms {
+			for _, e := range nt.MatchExpressions {
+				if e.Operator != corev1.NodeSelectorOpNotIn && e.Operator != corev1.NodeSelectorOpDoesNotExist {
+					need[e.Key] = true
+				}
+			}
+		}
+	}
+	keys := make([]string, 0, len(need))
+	for k := range need {
 		if _, has := labels[k]; !has {
 			keys = append(keys, k)
 		}
